@@ -32,11 +32,11 @@ func H_c07_chunks() {
 		case 0: // open
 			if id < 2 {
 				if !open[id] {
-					if !created[id] {
-						if a.DownloadAdd(100+id, names[id], 10) == nil {
-							open[id] = true
-							created[id] = true
-						}
+					// a second transfer of the same remote file starts the loot file afresh
+					if a.DownloadAdd(100+id, names[id], 10) == nil {
+						open[id] = true
+						created[id] = true
+						want[id] = nil
 					}
 				}
 			}
